@@ -185,3 +185,109 @@ def main():
 if __name__ == "__main__":
     for mi, clears, writes in main():
         print("%-6s %-22s clears=%-5s live=%-5s query=%-5s writes=%s storesAlways=%s" % (mi.cls, mi.name, clears, mi.live, mi.query, writes, sorted(mi.stores_always)))
+
+
+# ------------------------------------------------------------------------------------------------
+# Guards.lean — for every fault of the C20 catalogue: is the guarding raise/assert present in the
+# function the property anchors (matched by enclosing function + the identifiers its condition tests)
+GUARDS = [
+    # (fault, file, class or None, function, kind, identifiers that must occur in the guard's condition / handler)
+    ("missing_derivative", "stage.py", "Stage", "_ode", "raise_in_except", ["_state_der"]),
+    ("missing_update_rule", "stage.py", "Stage", "_diffeq", "raise_in_except", ["_state_next"]),
+    ("missing_parameter_value", "stage.py", "Stage", "_param_value", "raise_if", ["_param_vals"]),
+    ("no_method", "direct_method.py", "DirectMethod", "transcribe", "raise_if", ["nx", "nu"]),
+    ("no_solver", "direct_method.py", "DirectMethod", "main_transcribe", "raise_if", ["_solver", "None"]),
+    ("signal_objective", "stage.py", "Stage", "add_objective", "assert", ["is_signal"]),
+    ("nonscalar_objective", "stage.py", "Stage", "add_objective", "raise_if", ["is_scalar"]),
+    ("set_value_nonparameter_declared", "stage.py", "Stage", "set_value", "raise_if", ["parameters"]),
+    ("set_value_nonparameter_live", "sampling_method.py", "SamplingMethod", "set_value", "assert", ["found"]),
+    ("set_initial_parameter", "stage.py", "Stage", "set_initial", "raise_if", ["parameters"]),
+    ("set_initial_unknown_symbol", "stage.py", "Stage", "set_initial", "raise_if", ["_meta", "_placeholders"]),
+    ("unknown_constraint_grid", "stage.py", "Stage", "subject_to", "raise_if", ["grid", "point", "control", "inf", "integrator"]),
+    ("unknown_sample_grid", "stage.py", "Stage", "_sample", "raise_else", ["grid"]),
+    ("constant_false_constraint", "direct_method.py", "OptiWrapper", "subject_to", "raise_if", ["is_constant"]),
+    ("alg_with_rk", "sampling_method.py", "SamplingMethod", "intg_rk", "assert", ["Z", "is_empty"]),
+    ("alg_with_expl_euler", "sampling_method.py", "SamplingMethod", "intg_expl_euler", "assert", ["Z", "is_empty"]),
+    ("free_symbols_in_dynamics", "stage.py", "Stage", "_ode", "assert", ["has_free"]),
+    ("free_symbols_in_integrator", "sampling_method.py", "SamplingMethod", "discrete_system", "raise_if", ["has_free"]),
+    ("roots_constraint_under_multiple_shooting", "multiple_shooting.py", "MultipleShooting", "add_constraints", "raise_if", ["integrator_roots"]),
+    ("roots_constraint_under_single_shooting", "single_shooting.py", "SingleShooting", "add_constraints", "raise_if", ["integrator_roots"]),
+    ("spline_time_varying_or_nonlinear", "spline_method.py", "SplineMethod", None, "raise_any", ["linear"]),
+]
+
+
+def _find_function(tree, cls, fn):
+    for node in tree.body:
+        if isinstance(node, ast.ClassDef) and node.name == cls:
+            if fn is None:
+                return node
+            for f in node.body:
+                if isinstance(f, ast.FunctionDef) and f.name == fn:
+                    return f
+    return None
+
+
+def _guard_present(fn, kind, idents):
+    if fn is None:
+        return False
+
+    def has_all(src):
+        return all(i in src for i in idents)
+    for node in ast.walk(fn):
+        if kind == "assert" and isinstance(node, ast.Assert) and has_all(ast.unparse(node.test)):
+            return True
+        if kind == "raise_if" and isinstance(node, ast.If) and has_all(ast.unparse(node.test)):
+            if any(isinstance(n, ast.Raise) for sub in node.body for n in ast.walk(sub)):
+                return True
+        if kind == "raise_else" and isinstance(node, ast.If) and has_all(ast.unparse(node.test)):
+            # an if/elif chain whose final else raises
+            cur = node
+            while cur.orelse and len(cur.orelse) == 1 and isinstance(cur.orelse[0], ast.If):
+                cur = cur.orelse[0]
+            if any(isinstance(n, ast.Raise) for sub in cur.orelse for n in ast.walk(sub)):
+                return True
+        if kind == "raise_in_except" and isinstance(node, ast.Try):
+            body_src = " ".join(ast.unparse(s) for s in node.body)
+            if has_all(body_src) and any(isinstance(n, ast.Raise) for h in node.handlers for sub in h.body for n in ast.walk(sub)):
+                return True
+        if kind == "raise_any" and isinstance(node, ast.Raise):
+            src = ast.unparse(node)
+            if any(i in src.lower() for i in idents):
+                return True
+    return False
+
+
+def guards():
+    rows = []
+    cache = {}
+    for fault, fname, cls, fn, kind, idents in GUARDS:
+        path = os.path.join(REPO, "rockit", fname)
+        if path not in cache:
+            cache[path] = ast.parse(open(path).read())
+        f = _find_function(cache[path], cls, fn)
+        rows.append((fault, fname, cls, fn, _guard_present(f, kind, idents), getattr(f, "lineno", 0)))
+    L = ["/-! GENERATED by tools/extract.py from /repo/rockit — do not edit. -/", "namespace Rockit.Generated", "",
+         "/-- (fault of the C20 catalogue, guarding raise/assert present in its anchor function) -/",
+         "def guards : List (String × Bool) := ["]
+    for i, (fault, fname, cls, fn, ok, line) in enumerate(rows):
+        L.append('  ("%s", %s)%s  -- %s:%s.%s line %d' % (fault, str(ok).lower(), "," if i < len(rows) - 1 else "", fname, cls, fn, line))
+    L += ["]", "", "end Rockit.Generated", ""]
+    path = os.path.join(OUT, "Guards.lean")
+    new = "\n".join(L)
+    if not os.path.exists(path) or open(path).read() != new:
+        open(path, "w").write(new)
+    return rows
+
+
+_main_inval = main
+
+
+def main():
+    rows = _main_inval()
+    guards()
+    return rows
+
+
+if __name__ == "__main__" and len(sys.argv) > 1 and sys.argv[1] == "guards":
+    for r in guards():
+        print(r)
